@@ -156,7 +156,7 @@ def cres(st, val, f):
 class Recorder:
     """the sympify calls the deserialiser makes: (names given, text) -> structure of the result, None if it raised"""
     def __enter__(self):
-        self.tab, self.orig = {}, _serde.deserialize_expr
+        self.tab, self.orig, self.odd = {}, _serde.deserialize_expr, False
         def wrapped(expr_str, symbol_names):
             names = list(symbol_names)
             key = (tuple(names), expr_str) if isinstance(expr_str, str) and all(isinstance(n, str) for n in names) else None
@@ -166,6 +166,7 @@ class Recorder:
                 if key: self.tab.setdefault(key, None)
                 raise
             if key: self.tab.setdefault(key, p_struct(r))
+            if not isinstance(r, sympy.Expr): self.odd = True
             return r
         _serde.deserialize_expr = wrapped
         return self
@@ -176,6 +177,8 @@ def read_back(fn, js, structf):
     """run a deserialiser, classify the outcome: ('ok', structure) / ('err', class) / ('err', 'Junk')"""
     with Recorder() as rec:
         st, out = outcome(fn, js, timeout=20)
+    if rec.odd:                     # sympify returned something that is not an expression (e.g. the function N): outside the model
+        return "skip", "sympify returned a non-expression", None, rec.tab
     if st == "ok":
         try:
             return "ok", structf(out), out, rec.tab
@@ -255,8 +258,16 @@ def cheap_matrix(g):
         g = g.wrapped_gate
     return True
 
+def moderate(g, env):
+    """arguments of modulus <= 1000 under env: 15 printed digits then keep matrix entries to 1e-9"""
+    while hasattr(g, "wrapped_gate"): g = g.wrapped_gate
+    try:
+        return all(abs(numeric(p, env)) <= 1000 for p in g.params)
+    except Exception:
+        return False
+
 def small_matrix(g, env):
-    if not cheap_matrix(g): return None
+    if not cheap_matrix(g) or not moderate(g, env): return None
     st, m = outcome(lambda: g.matrix, timeout=4)
     if st != "ok": return None
     st, m = outcome(lambda: [complex(sympy.N(x.subs(env, simultaneous=True) if env else x, 20)) for x in sympy.Matrix(m)], timeout=4)
@@ -335,7 +346,10 @@ def gen_tree(rng, syms, depth, mix=False):
     if r < 0.55: return ["add", gen_tree(rng, syms, depth - 1, mix), gen_tree(rng, syms, depth - 1, mix)]
     if r < 0.8: return ["mul", gen_tree(rng, syms, depth - 1, mix), gen_tree(rng, syms, depth - 1, mix)]
     if r < 0.88: return ["pow", gen_tree(rng, syms, depth - 1, mix), rng.choice([2, 3])]
-    return ["fn", rng.choice(["sin", "cos"] + ([] if "exp" in banned else ["exp"])), gen_tree(rng, syms, depth - 1, mix)]
+    f = rng.choice(["sin", "cos"] + ([] if "exp" in banned else ["exp"]))
+    if f == "exp":                                  # keep magnitudes inside double range: exp of a symbol or a small number only
+        return ["fn", f, ["sym", rng.choice(syms)] if syms and rng.random() < 0.6 else ["int", rng.randint(-4, 4)]]
+    return ["fn", f, gen_tree(rng, syms, depth - 1, mix)]
 
 def gen_param(rng, syms, numeric_only):
     r = rng.random()
@@ -622,13 +636,17 @@ def run_case(inp):
     if kind == "mangle":
         label = mangle(js, inp["mangle"])
         st2, out, _, tab = read_back(reader, js, structf)
-        chk += f" && {from_eqb} {ctable(tab)} {cjson(js)} {cres(st2, out, cstructs)}"
+        if st2 != "skip":
+            chk += f" && {from_eqb} {ctable(tab)} {cjson(js)} {cres(st2, out, cstructs)}"
         return dict(chk=chk, oracle_ok=True, oracle_msg="", kind=f"mangle-{label}", nontrivial=nontriv)
 
     st2, out, obj2, tab = read_back(reader, js, structf)
-    chk += f" && {from_eqb} {ctable(tab)} {cjson(js)} {cres(st2, out, cstructs)}"
+    if st2 != "skip":
+        chk += f" && {from_eqb} {ctable(tab)} {cjson(js)} {cres(st2, out, cstructs)}"
     ok, msg = True, ""
-    if st2 != "ok":
+    if st2 == "skip":
+        ok, msg = False, out
+    elif st2 != "ok":
         ok, msg = False, f"reading back raised {out}" if out != "Junk" else "reading back gave an object that is not a gate circuit"
     else:
         cs2 = obj2 if is_set else [obj2]
